@@ -80,6 +80,8 @@ def ops_universe():
     ops.append(("add", "a/:x", GET, "n4", False))
     ops.append(("add", "a", GET, "n2", False))             # name clash when n2 is taken by a/b
     ops.append(("add", "ab", GET, "n4", False))            # name clash with a rule that is new to the router
+    ops.append(("add", "a", GET, "n2", True))              # overwrite moves the name n2 to this rule (since seed C11-i)
+    ops.append(("add", "a/:x", GET, "m2", True))
     ops.append(("add", "a/b", (GET, POST), None, False))   # method lists: rejected as a whole when one method is taken
     ops.append(("add", "a/b", (POST, GET), None, False))
     ops.append(("add", "a", (POST, "PUT"), None, False))
@@ -159,7 +161,7 @@ def apply_op(router, model, op, step):
         # is off) or its name belongs to another rule; a refused one leaves no trace, an accepted one is in force.
         # The router is compared with the model afterwards, so a wrong refusal / acceptance shows as a difference
         taken = not over and any(m in model.routes.get(r, {}) for m in meths)
-        clash = bool(name) and name in model.names and model.names[name] != r
+        clash = bool(name) and not over and name in model.names and model.names[name] != r
         if not (taken or clash):
             for m in meths:
                 model.routes.setdefault(r, {})[m] = tag
